@@ -117,6 +117,11 @@ def directed(rng, v, siblings=(), budget=24):
                 for i in {len(v) - ln, len(v) - 2 * ln if len(v) > 2 * ln else 0, rng.randrange(len(v) - ln)}:
                     fill = rng.choice([bytes(ln), bytes(ln - 1) + b'\x01', b'\xff' * ln])
                     out.append(v[:i] + fill + v[i + ln:])
+            # the last two fields of that size together (both coordinates of a point, p and q): tiny values and exact
+            # powers of 256
+            if len(v) >= 2 * ln:
+                fill = rng.choice([bytes(ln - 1) + b'\x01', bytes(ln - 2) + b'\x01\x00', bytes(ln - 3) + b'\x01\x00\x00'])
+                out.append(v[:len(v) - 2 * ln] + fill + fill)
     # host names: a label turned into a malformed / truncated / empty ACE (punycode) label
     for m in list(re.finditer(rb'[a-z0-9-]{3,}', v))[:3]:
         a, b = m.span()
